@@ -147,6 +147,11 @@ def gjk_nesterov_accelerated(
                 momentum = (i + 1) / (i + 3)
                 y = momentum * ray + (1.0 - momentum) * support_point
                 ray_dir = momentum * ray_dir + (1.0 - momentum) * y
+            if np.linalg.norm(ray_dir) == 0.0:
+                # The momentum term cancelled the search direction
+                # (symmetric configuration), fall back to vanilla GJK.
+                use_nesterov_acceleration = False
+                ray_dir = ray
         else:
             ray_dir = ray
 
